@@ -641,6 +641,7 @@ func genC09(r *rng, tier string, emit func(string)) {
 	}
 	c09xGen(r, tier, emit) // extension codecs (kuext / bcext) against Model.X509Ext
 	c09nGen(r, tier, emit) // SAN, name constraints, EKU, key ids, policies, CRL DP against Model.X509Names
+	c09tGen(r, tier, emit) // one template object used for several calls in a row against Model.TemplateReuse
 }
 
 // SM2 keys whose public point has a 31-byte X (327), a 31-byte Y (107), a 30-byte coordinate (17883) or both
